@@ -11,6 +11,7 @@ static uint32_t rd32(const uint8_t *p) { return p[0] | p[1] << 8 | p[2] << 16 | 
 static uint64_t rd64(const uint8_t *p) { return rd32(p) | (uint64_t)rd32(p + 4) << 32; }
 
 // ---------------------------------------------------------------- LZMA2
+size_t ref_progress_out;	// output position after the last completely decoded LZMA2 chunk (for prefix checks)
 uint32_t ref_lzma2_dict_size(unsigned b) { if (b > 40) return 0; if (b == 40) return 0xFFFFFFFFu; return (2u | (b & 1)) << (b / 2 + 11); }
 // Decodes an LZMA2 stream starting at in[*pos]; stops after the end marker. Output appended to w.
 int ref_lzma2_decode(const uint8_t *in, size_t *pos, size_t n, ref_window *w, ref_lzma2_stats *st) {
@@ -35,13 +36,13 @@ int ref_lzma2_decode(const uint8_t *in, size_t *pos, size_t n, ref_window *w, re
 			if (r == REF_ERR_TRUNC) return REF_ERR_DATA; // ran past the chunk's compressed size
 			if (r != REF_FINISHED_SIZE) return r < 0 ? r : REF_ERR_DATA;
 			if (w->out_pos - before != usz || rc.in_pos != *pos + csz) return REF_ERR_DATA;
-			*pos += csz;
+			*pos += csz; ref_progress_out = w->out_pos;
 		} else {
 			if (c > 2) return REF_ERR_DATA;
 			if (*pos + 2 > n) return REF_ERR_TRUNC;
 			size_t sz = ((size_t)in[*pos] << 8) + in[*pos + 1] + 1; *pos += 2;
 			if (*pos + sz > n) return REF_ERR_TRUNC; if (w->out_pos + sz > w->out_cap) return REF_ERR_OUT;
-			memcpy(w->out + w->out_pos, in + *pos, sz); w->out_pos += sz; *pos += sz; if (st) st->uncompressed_chunks++;
+			memcpy(w->out + w->out_pos, in + *pos, sz); w->out_pos += sz; *pos += sz; if (st) st->uncompressed_chunks++; ref_progress_out = w->out_pos;
 		}
 	}
 }
@@ -55,6 +56,7 @@ static const unsigned check_sizes[16] = { 0, 4, 4, 4, 8, 8, 8, 16, 16, 16, 32, 3
 static const uint8_t HMAGIC[6] = { 0xFD, '7', 'z', 'X', 'Z', 0 }, FMAGIC[2] = { 'Y', 'Z' };
 
 int ref_xz_decode(const uint8_t *in, size_t n, uint8_t *out, size_t cap, size_t *outlen, ref_xz_info *info) {
+	ref_progress_out = 0;
 	size_t pos = 0; size_t opos = 0; int streams = 0; memset(info, 0, sizeof *info);
 	while (pos < n) {
 		// Stream Padding between streams
@@ -94,7 +96,7 @@ int ref_xz_decode(const uint8_t *in, size_t n, uint8_t *out, size_t cap, size_t 
 			if (usize != (uint64_t)-1 && usize != real_u) return REF_ERR_DATA;
 			if (w.max_dist_used > info->max_dist_used) info->max_dist_used = w.max_dist_used;
 			if (w.dict_size && w.max_dist_used > w.dict_size) return REF_ERR_DATA;
-			info->lzma2_chunks += st.chunks; info->uncompressed_chunks += st.uncompressed_chunks; info->dict_size_declared = w.dict_size;
+			info->lzma2_chunks += st.chunks; info->uncompressed_chunks += st.uncompressed_chunks; info->prop_changes += st.prop_changes; info->state_resets += st.state_resets; info->dict_resets += st.dict_resets; info->dict_size_declared = w.dict_size;
 			// reverse delta filters (last applied first when decoding: chain order is encoder order; decode from last to first)
 			for (int d = ndelta - 1; d >= 0; d--) for (size_t i = opos + delta_dist[d]; i < w.out_pos; i++) out[i] = (uint8_t)(out[i] + out[i - delta_dist[d]]);
 			// Block Padding
